@@ -17,7 +17,8 @@ EXPLANATION = (
     '`/` in the pattern between whole-path and per-Normal-component matching with the trailing slash trimmed and empty patterns skipped, and in glob_match every '
     'literal comparison of a pattern character is guarded by the not-equal edge of each metacharacter test (`?`, `*`) of that character; characters flow only into ==; '
     '(R4) the remote listing writer (find -printf \'%s\\t%T@\\t%p\\0\') and its parser agree on separators, field order, field count, the ./ prefix and whole seconds. '
-    'Not decided: equivalence of the backtracking matcher with wildcard semantics for all pattern/text pairs (a loop algorithm over runtime strings); UTF-8 lossy corner.')
+    'R3 also decides the matcher\'s step function: glob_match is cut at its loop heads and every transition is compared with the classic single-star backtracking matcher on every valuation of {ti<len(t), pi<len(p), p[pi]==\'*\', p[pi]==\'?\', p[pi]==t[ti], star.is_some()}; the prefix/suffix-overlap fast path is reported. '
+    'Not decided: that the classic matcher equals the declarative wildcard semantics (textbook argument); early returns outside the modelled loops (NO-VERDICT); UTF-8 lossy corner.')
 ASSUMPTIONS = ['BTreeMap iteration visits every entry', 'find(1) -printf semantics for %s %T@ %p']
 
 
